@@ -16,7 +16,8 @@ from fractions import Fraction as Fr
 from . import core
 
 THEOREMS = ["C13_defaults", "C13_values", "C13_variable_attributes", "C13_affine_rebuild",
-            "C13_types", "C13_example"]
+            "C13_types", "C13_substitute", "C13_values_steps", "C13_vector_elements",
+            "C13_test_sound_partial", "C13_values_test", "C13_numeric_test_refuted", "C13_blockdiag_test_refuted", "C13_example"]
 
 ATTRS = ["value", "min", "max", "start", "fixed", "nominal"]       # documented column order
 COQ_ATTR = {"value": "AValue", "min": "AMin", "max": "AMax", "start": "AStart",
@@ -970,13 +971,6 @@ def cq_ext(s):
     return {"nan": "NaN", "inf": "PosInf", "-inf": "NegInf"}.get(s) or "(Fin %s)" % cq_qc(Fr(s))
 
 
-def cq_tree(t, slot, env0):
-    t = subst_tree(t, slot, env0)
-    if not syn_affine(t):
-        NONAFFINE_AFTER_SUBST[0] = True
-    return cq_tree_(t, slot)
-
-
 def cq_tree_(t, slot):
     k = t[0]
     if k == "c":
@@ -1007,9 +1001,6 @@ class NoEncoding(Exception):
     pass
 
 
-NONAFFINE_AFTER_SUBST = [False]
-
-
 def subst_tree(t, slot, env0):
     """the attribute expression after the implementation eliminated parameters (replace_parameter_values /
     replace_parameter_expressions): a declared literal value or, for a dependent parameter, its declared expression"""
@@ -1029,35 +1020,103 @@ def subst_tree(t, slot, env0):
     return [k] + [subst_tree(x, slot, env0) if isinstance(x, list) else x for x in t[1:]]
 
 
-def encode(case, res):
-    try:
-        return encode_(case, res)
-    except NoEncoding:
-        return None
+def scalar_params_only(t):
+    if t[0] == "p":
+        return t[2] is None
+    return all(scalar_params_only(x) for x in t[1:] if isinstance(x, list))
 
 
-def encode_(case, res):
-    slot = {}
-    pos = 0
+def slots_of(case, params):
+    """observed parameter list -> {(name, veccat index | None): position in veccat(parameters)}"""
     PD = {p["name"]: p for p in case["params"]}
-    for nm, shape in res["params"]:
+    slot, order, pos = {}, [], 0
+    for nm, shape in params:
         cnt = shape[0] * shape[1]
         m = elem_of(nm, PD) if nm not in PD else None
         if m:
             slot[(m[0]["name"], m[1])] = pos
-        elif cnt == 1:
+            order.append((m[0]["name"], m[1]))
+        elif cnt == 1 and not (PD.get(nm, {}).get("dims")):
             slot[(nm, None)] = pos
             slot[(nm, 0)] = pos
+            order.append((nm, None))
         else:
             for i in range(cnt):
                 slot[(nm, i)] = pos + i
+                order.append((nm, i))
         pos += cnt
-    NONAFFINE_AFTER_SUBST[0] = False
+    return slot, order
+
+
+def declared_params(case):
+    """virtual stage for models only observed after substitution: all declared parameters, declaration order"""
+    return [[p["name"], [numel(p), 1]] for p in case["params"]]
+
+
+def cq_vexp(d, v, slot):
+    """vector / matrix valued declaration -> vexp term (veccat order)"""
+    def mat(m, r, c):
+        k = m[0]
+        if k == "mp":
+            return "(VList [%s])" % "; ".join(cq_tree_(["p", m[1], i], slot) for i in range(r * c))
+        if k == "mscale":
+            return "(VScale %s %s)" % (cq_qc(fr(m[1])), mat(m[2], r, c))
+        if k == "mneg":
+            return "(VNeg %s)" % mat(m[1], r, c)
+        if k == "mfill":
+            return "(VFill %s %d%%nat)" % (cq_tree_(m[1], slot), r * c)
+        return "(VAdd %s %s)" % (mat(m[1], r, c), mat(m[2], r, c))
+
+    def vec(w):
+        k = w[0]
+        if k == "vp":
+            return "(VList [%s])" % "; ".join(cq_tree_(["p", w[1], i], slot) for i in range(w[2]))
+        if k == "vscale":
+            return "(VScale %s %s)" % (cq_qc(fr(w[1])), vec(w[2]))
+        if k == "vneg":
+            return "(VNeg %s)" % vec(w[1])
+        return "(VAdd %s %s)" % (vec(w[1]), vec(w[2]))
+    if d["k"] == "mexp":
+        return mat(d["e"], v["dims"][0], v["dims"][1])
+    return vec(d["e"])
+
+
+def encode(case, res, history=None):
+    """history: parameter lists of the earlier observations of the same Model object (sequence cases)"""
+    try:
+        return encode_(case, res, history)
+    except (NoEncoding, KeyError):
+        return None
+
+
+def encode_(case, res, history):
+    PD = {p["name"]: p for p in case["params"]}
+    if history is None:
+        history = [declared_params(case)] if case["opts"].get("replace_parameter_values") else []
+    stages = list(history) + [res["params"]]
+    slot, _ = slots_of(case, stages[0])                 # the model is written over the FIRST parameter vector
+    final_slot, _ = slots_of(case, res["params"])
+    subst = len(stages) > 1
     E = envs(case, res)
-    E[0] = dict(E[0])
-    E[0]["__decl__"] = {p["name"]: p["attrs"].get("value") for p in case["params"]}
+    decls = {p["name"]: p["attrs"].get("value") for p in case["params"]}
+    # the parameter eliminations, one substitution per step (input of the model)
+    steps = []
+    for a_, b_ in zip(stages, stages[1:]):
+        _, old_order = slots_of(case, a_)
+        new_slot, _ = slots_of(case, b_)
+        env0 = dict(E[0])
+        env0["__decl__"] = decls
+        steps.append("[%s]" % "; ".join(cq_tree_(subst_tree(["p", k[0], k[1]], new_slot, env0), new_slot) for k in old_order))
+    env_f = dict(E[0])
+    env_f["__decl__"] = decls
+    nonaffine_after = [False]
+
+    def final_tree(t):
+        ft = subst_tree(t, final_slot, env_f)
+        if not syn_affine(ft):
+            nonaffine_after[0] = True
+        return ft
     loc = locate(case, res)
-    subst = bool(case["opts"].get("replace_parameter_values")) or bool(case.get("steps"))
     cats, tags = [], []
     for cat in CATS:
         vs, ts = [], []
@@ -1073,27 +1132,38 @@ def encode_(case, res):
                 tg = None
                 if moved and a == "value":
                     # turned into a constant by eliminate_constant_assignments: the value comes from the equation
-                    term = "DElems [%s]" % "; ".join("ELit (LReal %s)" % cq_qc(Fr(x)) if x not in ("nan", "inf", "-inf") else "" for x in o["attrs"][a]["vals"][0])
-                    if "nan" in o["attrs"][a]["vals"][0] or "inf" in o["attrs"][a]["vals"][0] or "-inf" in o["attrs"][a]["vals"][0]:
+                    vals = o["attrs"][a]["vals"][0]
+                    if any(x in ("nan", "inf", "-inf") for x in vals):
                         raise NoEncoding()
+                    term = "DElems [%s]" % "; ".join("ELit (LReal %s)" % cq_qc(Fr(x)) for x in vals)
                 elif d is None:
                     term = "DNone"
                 else:
                     es = decl_elems(d, numel(v), v.get("dims") or [])
+                    for e in es:
+                        if e[0] == "exp":
+                            final_tree(e[1])
 
                     def cel(e):
-                        return "ELit %s" % cq_lit(e) if e[0] == "lit" else "EExp %s" % cq_tree(e[1], slot, E[0])
-                    if el is not None and d["k"] in ("elems", "vec", "mat", "mexp"):
+                        return "ELit %s" % cq_lit(e) if e[0] == "lit" else "EExp %s" % cq_tree_(e[1], slot)
+                    if d["k"] in ("vec", "mexp"):
+                        term = ("DVecEl %s %d%%nat" % (cq_vexp(d, v, slot), el)) if el is not None else "DVec %s" % cq_vexp(d, v, slot)
+                    elif el is not None and d["k"] in ("elems", "mat"):
                         term = "DElems [%s]" % cel(es[el])
                     elif d["k"] == "lit":
                         term = "DLit %s" % cq_lit(es[0])
                         tg = TAGS.get(o["attrs"][a]["tag"], "GList")
                     elif d["k"] == "exp":
-                        term = "DExp %s" % cq_tree(d["e"], slot, E[0])
+                        term = "DExp %s" % cq_tree_(d["e"], slot)
+                        if not subst or (not has_param(subst_tree(d["e"], final_slot, env_f)) and scalar_params_only(d["e"])):
+                            # symbolic (MX) without substitution; a Python number of the variable's type when the
+                            # substitution made it constant.  (In between CasADi may or may not fold 0*x, and an
+                            # element pa[k] of a substituted array parameter is not folded to a constant.)
+                            tg = TAGS.get(o["attrs"][a]["tag"], "GList")
                     else:
                         term = "DElems [%s]" % "; ".join(cel(e) for e in es)
                 branches.append("| %s => %s" % (COQ_ATTR[a], term))
-                trow.append("None" if tg is None or subst else "(Some %s)" % tg)
+                trow.append("None" if tg is None else "(Some %s)" % tg)
             vs.append("(Var %s %d%%nat (fun a => match a with %s end))" % (VT.get(o["ptype"], "TReal"), o["numel"], " ".join(branches)))
             ts.append("(%s, [%s])" % (VT.get(o["ptype"], "TReal"), "; ".join(trow)))
         cats.append("[%s]" % "; ".join(vs))
@@ -1132,12 +1202,13 @@ def encode_(case, res):
     if not points:
         return None
     rebuilt = res["rebuilt"] is True
-    if rebuilt and subst and NONAFFINE_AFTER_SUBST[0]:
+    if rebuilt and subst and nonaffine_after[0]:
         # after the implementation substituted parameter values CasADi may fold the expression (0*x, 0/x) into an
-        # affine one while the harness-substituted tree is still syntactically non-affine: evaluate the model on
-        # the direct branch (the observed values must match either way)
+        # affine one while the substituted tree is still syntactically non-affine: evaluate the model on the
+        # direct branch (the observed values must match either way)
         rebuilt = False
-    return "(Case [%s] %s [%s] [%s])" % ("; ".join(cats), core.cq_bool(rebuilt), "; ".join(tags), ";\n     ".join(points))
+    return "(Case [%s] [%s] %s [%s] [%s])" % ("; ".join(cats), "; ".join(steps), core.cq_bool(rebuilt), "; ".join(tags),
+                                              ";\n     ".join(points))
 
 
 # =====================================================================================
@@ -1276,13 +1347,14 @@ def run(ctx):
         if "exc" in r or "crash" in r:
             dist["impl_exceptions"] += 1
             continue
+        r0 = r
         obs = r["stages"] if "stages" in r else [r]
         if any(o.get("rebuilt") for o in obs):
             dist["rebuilt"] += 1
         if any(d is not None and d["k"] != "lit" for v in c["params"] + c["vars"] for d in v["attrs"].values()):
             nontrivial.add(c["text"] + json.dumps(c.get("steps")))
-        for o in obs:
-            e = encode(c, o)
+        for k_, o in enumerate(obs):
+            e = encode(c, o, [x["params"] for x in obs[:k_]] if "stages" in r0 else None)
             if e is None:
                 skipped_points += 1
                 continue
@@ -1324,8 +1396,12 @@ def run(ctx):
         "rationals, intermediate magnitudes < 2^12, divisors > 1/8; other points are skipped)",
         "which branch variable_metadata_function takes (affine rebuild or direct) is an input of the model observed from the "
         "implementation; the contract 'rebuilt => all cells in the syntactic affine class' is checked per case",
-        "vector-valued attribute expressions (start = pa, 2*pa) and parameters removed by replace_parameter_values are "
-        "expanded / substituted by the harness before the model sees them",
+        "which parameters a simplify step eliminates, and by what (declared literal value / declared expression), is an input "
+        "of the model derived by the harness from the observed parameter lists; the model applies the substitution, the "
+        "constant-to-Python-number conversion and re-evaluates (C13_values_steps)",
+        "CasADi's folding of substituted expressions (0*x, elements of a substituted array parameter) is not modelled: Python "
+        "type tags of substituted attributes are compared only when scalar parameters alone were substituted, and the "
+        "rebuild contract is relaxed to the direct branch when the substituted tree is syntactically non-affine",
     ]
 
 
